@@ -33,3 +33,10 @@ dispatch_lines = dict(
     bounded=dict(bound='messages of length <= 6 (thorough: 8) over {a, b, newline} x 3 configurations', form='b'),
     dropped=[], trusted=['g++ / libstdc++ / fmt execute the real frontend and backend'], min_obligations=1, timeout=900)
 UNITS += [dispatch_lines]
+runtime_md = dict(
+    name='BW.runtime_md', primary='C12', props={'C12'}, kind='L', funcs=[], enforce=None,
+    desc='BackendWorker::_apply_runtime_metadata through the real pipeline (ManualBackendWorker, recording sink): runtime-supplied file / line / function render exactly as given, message restored, metadata created once and reused (std::string_view::find/substr and a map keyed by strings are out of CBMC reach)',
+    native=dict(cpp='runtime_md.cpp', file='include/quill/backend/BackendWorker.h', function='BackendWorker::_apply_runtime_metadata', defs_quick=['LEN=3'], defs_thorough=['LEN=5']),
+    bounded=dict(bound='4 files x 4 lines x 4 functions x messages of length <= 3 (thorough: 5) over 4 symbols x 2 uses', form='b'),
+    dropped=[], trusted=['g++ / libstdc++ / fmt execute the real frontend and backend'], min_obligations=1, timeout=900)
+UNITS += [runtime_md]
